@@ -60,6 +60,32 @@ def run(chk):
                     "back-substitution pairing of decision-vector slots is verified in C09-R2"]
 
 
+def data_skips(I):
+    """texts of the `if (c) continue;` guards and effect guards of an interpreted routine whose condition reads data
+    (anything but integer index / size symbols and boolean flags)"""
+    def is_data(c):
+        try:
+            c = sp.sympify(c)
+        except Exception:
+            return True
+        if c.atoms(sp.Indexed):
+            return True
+        return any(not (x.is_integer or x.is_Boolean or getattr(x, "is_bool", False)) and isinstance(x, sp.Symbol) and not isinstance(c, sp.Symbol) for x in c.free_symbols)
+    out = []
+    stack = list(I.loops)
+    seen = set()
+    while stack:
+        L = stack.pop()
+        if id(L) in seen:
+            continue
+        seen.add(id(L))
+        for txt, c in L.locals.get("_skip_guards", []):
+            if is_data(c):
+                out.append(txt)
+        stack.extend(L.inner)
+    return sorted(set(out))
+
+
 def check_quadrature(chk, F, cls, f, Kc):
     chk.saw(f)
     inst = f["full"].split("calculateIntegralCost")[1][:50]
@@ -68,6 +94,11 @@ def check_quadrature(chk, F, cls, f, Kc):
     ws, gdC, gdT, cost = info["params"][:4]
     Lseg, Lk, Lstart, Lcost, Lsuffix = find_loops(info)
     i, k = Lseg.var, Lk.var
+    # no sample is left out on the value of the running cost, of its partials or of the sampled state: what is skipped
+    # would be the gradient terms of a sample whose cost term happens to vanish (or the reverse)
+    skips = data_skips(I)
+    chk.ob("C07-R1", "%s%s: no quadrature sample or accumulation is skipped on a data value" % (cls, inst), not skips, loc(f),
+           "skipped when: %s" % "; ".join(skips[:3]) if skips else "every guard in the routine tests indices / sizes / flags only", construct="%s/integral%s/no-data-skip" % (cls, inst))
     R_ = info["roles"]
     n = sp.Symbol(R_["n"], integer=True, positive=True)
     Ks = sp.Symbol(R_["Ks"], integer=True, positive=True)
